@@ -27,6 +27,8 @@ type Query struct {
 	Seconds float64
 	Model   string
 	Output  string
+	Diag    []string
+	GroundModel string // candidate counter-model of the quantifier-free weakening
 	Canary  bool // vacuity canary: goal is false and must NOT be proved
 }
 
@@ -41,6 +43,7 @@ type FuncCtx struct {
 	decls      *Decls
 	keySorts   map[string]string
 	refKeys    map[string]int
+	intElemKeys map[string]types.Type
 	opaques    map[string]*opaqueInfo
 	opaqueUsed map[string]bool
 	queries    []*Query
@@ -56,6 +59,8 @@ type FuncCtx struct {
 	nquery     int
 	resultCells []ssa.Value
 	monitorRecv *monitorCtx
+	effSrc      map[string][]ssa.Value // per heap key: objects written through (static), for targeted loop havoc
+	effUnknown  map[string]bool
 }
 
 type monitorCtx struct {
@@ -75,6 +80,80 @@ func (fx *FuncCtx) posStr(p token.Pos) string {
 }
 
 func (fx *FuncCtx) oblige(st *State, kind, label, goal string, pos token.Pos, clause string) {
+	if goal == "true" {
+		return
+	}
+	// split conjunctions (also under one implication) so that a failure names the conjunct
+	fx.oblige1(st, kind, label, goal, pos, clause)
+}
+
+// top-level arguments of an s-expression "(op a b c)"
+func sexprArgs(s string) (op string, args []string) {
+	if len(s) < 2 || s[0] != '(' {
+		return "", nil
+	}
+	i := 1
+	for i < len(s) && s[i] != ' ' && s[i] != ')' {
+		i++
+	}
+	op = s[1:i]
+	for i < len(s)-1 {
+		for i < len(s)-1 && s[i] == ' ' {
+			i++
+		}
+		if i >= len(s)-1 {
+			break
+		}
+		j := i
+		if s[i] == '(' {
+			d := 0
+			for ; j < len(s); j++ {
+				if s[j] == '(' {
+					d++
+				} else if s[j] == ')' {
+					d--
+					if d == 0 {
+						j++
+						break
+					}
+				}
+			}
+		} else {
+			for j < len(s)-1 && s[j] != ' ' {
+				j++
+			}
+		}
+		args = append(args, s[i:j])
+		i = j
+	}
+	return
+}
+
+func splitGoal(g string) []string {
+	op, args := sexprArgs(g)
+	switch op {
+	case "and":
+		var out []string
+		for _, a := range args {
+			out = append(out, splitGoal(a)...)
+		}
+		return out
+	case "=>":
+		if len(args) == 2 {
+			sub := splitGoal(args[1])
+			if len(sub) > 1 {
+				var out []string
+				for _, x := range sub {
+					out = append(out, implies(args[0], x))
+				}
+				return out
+			}
+		}
+	}
+	return []string{g}
+}
+
+func (fx *FuncCtx) oblige1(st *State, kind, label, goal string, pos token.Pos, clause string) {
 	if goal == "true" {
 		return
 	}
@@ -114,10 +193,14 @@ func (e *Engine) verifyFunc(pkgPath, key string) (fx *FuncCtx, err error) {
 	if fc == nil {
 		return nil, fmt.Errorf("no contract for %s:%s", pkgPath, key)
 	}
-	fx = &FuncCtx{eng: e, fn: fn, fc: fc, pc: pc, key: key, mode: fc.Mode, keySorts: map[string]string{}, refKeys: map[string]int{}, opaques: map[string]*opaqueInfo{}, opaqueUsed: map[string]bool{},
+	fx = &FuncCtx{eng: e, fn: fn, fc: fc, pc: pc, key: key, mode: fc.Mode, keySorts: map[string]string{}, refKeys: map[string]int{}, intElemKeys: map[string]types.Type{}, opaques: map[string]*opaqueInfo{}, opaqueUsed: map[string]bool{},
 		trusted: map[string]bool{}, reveal: map[string]bool{}, pkg: fn.Pkg.Pkg, paramVals: map[string]Val{}}
 	fx.decls = newDecls()
 	fx.ar = newArith(fx.mode, fx.decls)
+	for g := range e.errGlobals {
+		fx.decls.declare(g+"!tag@0", "Int")
+		fx.decls.declare(g+"!data@0", "Int")
+	}
 	if r, ok := fc.Opts["reveal"]; ok {
 		for _, n := range strings.Split(r, ",") {
 			fx.reveal[strings.TrimSpace(n)] = true
@@ -508,7 +591,36 @@ func (fx *FuncCtx) loopHavoc(st *State, b *ssa.BasicBlock) {
 			sortOf = k.Sort
 		}
 		fx.keySorts[k.Key] = sortOf
+		// targeted havoc when every write in the loop goes through objects that are loop-invariant
+		if srcs := fx.effSrc[k.Key]; len(srcs) > 0 && !fx.effUnknown[k.Key] && strings.HasPrefix(sortOf, "(Array Int ") {
+			var refs []string
+			ok := true
+			for _, sv := range srcs {
+				r, good := fx.resolveRef(st, sv, cells, body)
+				if !good {
+					ok = false
+					break
+				}
+				if !contains(refs, r) {
+					refs = append(refs, r)
+				}
+			}
+			if ok {
+				for _, r := range refs {
+					fx.heapSet(st, k, sx("store", fx.heapGet(st.heap, k), r, fx.decls.fresh("lh$"+k.Key, innerSort(sortOf))))
+				}
+				continue
+			}
+		}
 		st.heap[k.Key] = fx.decls.fresh(k.Key, sortOf)
+		st.noteWrite(k.Key, "*")
+		if et, ok := fx.intElemKeys[k.Key]; ok {
+			nm := st.heap[k.Key]
+			fx.decls.n++
+			qo, qi := fmt.Sprintf("q$to!%d", fx.decls.n), fmt.Sprintf("q$ti!%d", fx.decls.n)
+			tm := sx("select", sx("select", nm, qo), qi)
+			st.assume("(forall ((" + qo + " Int) (" + qi + " Int)) (! " + fx.ar.rangeFact(tm, et) + " :pattern (" + tm + ")))")
+		}
 	}
 	if locks {
 		st.atlock = nil
@@ -532,6 +644,8 @@ func (fx *FuncCtx) loopHavoc(st *State, b *ssa.BasicBlock) {
 func (fx *FuncCtx) effectsOf(blocks map[*ssa.BasicBlock]bool) (cells []ssa.Value, keys []HeapKey, locks bool) {
 	cellSet := map[ssa.Value]bool{}
 	keySet := map[string]HeapKey{}
+	fx.effSrc = map[string][]ssa.Value{}
+	fx.effUnknown = map[string]bool{}
 	addKeysOfAddr := func(addr ssa.Value) {
 		fx.staticAddrKeys(addr, cellSet, keySet)
 	}
@@ -582,6 +696,56 @@ func (fx *FuncCtx) effectsOf(blocks map[*ssa.BasicBlock]bool) (cells []ssa.Value
 	return
 }
 
+func (fx *FuncCtx) noteEff(key string, src ssa.Value) {
+	if src == nil {
+		fx.effUnknown[key] = true
+		return
+	}
+	fx.effSrc[key] = append(fx.effSrc[key], src)
+}
+
+// resolveRef: the object reference denoted by an SSA value that is invariant in the loop
+func (fx *FuncCtx) resolveRef(st *State, v ssa.Value, modCells []ssa.Value, body map[*ssa.BasicBlock]bool) (string, bool) {
+	isMod := func(c ssa.Value) bool {
+		for _, m := range modCells {
+			if m == c {
+				return true
+			}
+		}
+		return false
+	}
+	switch x := v.(type) {
+	case *ssa.Parameter:
+		if r, ok := st.regs[x]; ok && len(r.C) == 1 {
+			return r.C[0], true
+		}
+	case *ssa.UnOp:
+		if x.Op == token.MUL {
+			switch c := x.X.(type) {
+			case *ssa.Alloc:
+				if !fx.allocIsObject(c) && !isMod(c) {
+					if cv, ok := st.cells[c]; ok && len(cv.C) == 1 {
+						return cv.C[0], true
+					}
+				}
+			case *ssa.FreeVar:
+				if !isMod(c) {
+					if cv, ok := st.cells[c]; ok && len(cv.C) == 1 {
+						return cv.C[0], true
+					}
+				}
+			}
+		}
+	case *ssa.Alloc:
+		if fx.allocIsObject(x) && !body[x.Block()] {
+			if r, ok := st.regs[x]; ok && len(r.C) == 1 {
+				return r.C[0], true
+			}
+		}
+	}
+	return "", false
+}
+
 func chanKeys() []HeapKey {
 	return []HeapKey{{"CH$len", "(Array Int Int)"}, {"CH$closed", "(Array Int Bool)"}}
 }
@@ -598,6 +762,7 @@ func (fx *FuncCtx) staticAddrKeys(addr ssa.Value, cellSet map[ssa.Value]bool, ke
 				p, suf := splitSuffix(c.suffix)
 				k := fx.fieldKey(t, p, comp{suffix: suf, sort: c.sort, kind: c.kind})
 				keySet[k.Key] = k
+				fx.noteEff(k.Key, a)
 			}
 		}
 	case *ssa.FreeVar:
@@ -618,6 +783,7 @@ func (fx *FuncCtx) staticAddrKeys(addr ssa.Value, cellSet map[ssa.Value]bool, ke
 		for _, c := range fx.mode.comps(ft) {
 			k := fx.fieldKey(root, path, c)
 			keySet[k.Key] = k
+			fx.noteEff(k.Key, base)
 		}
 	case *ssa.IndexAddr:
 		var et types.Type
@@ -1110,6 +1276,15 @@ func (fx *FuncCtx) execUnOp(st *State, in *ssa.UnOp) {
 			if x.L.Kind != LocCell {
 				fx.assumeTyping(st, v)
 			}
+			if x.L.Kind == LocField && len(v.C) == 4 {
+				first := x.L.Path
+				if i := strings.Index(first, "."); i >= 0 {
+					first = first[:i]
+				}
+				if cls, _ := fx.eng.fieldClass(namedOf(x.L.Root), first); cls == "owned" {
+					fx.assumeOwnedDistinct(st, v.C[0])
+				}
+			}
 			if cell, ok := st.cells[x.L.Cell]; ok && x.L.Kind == LocCell && x.L.Sub == "" {
 				v.Fn, v.Bind, v.Tup = cell.Fn, cell.Bind, cell.Tup
 			}
@@ -1258,7 +1433,9 @@ func (fx *FuncCtx) makeSliceUnknown(st *State, t types.Type, n string) Val {
 	et := t.Underlying().(*types.Slice).Elem()
 	for _, ec := range fx.mode.comps(et) {
 		k := fx.elemKey(et, ec)
-		fx.heapSet(st, k, sx("store", fx.heapGet(st.heap, k), r, fx.decls.fresh("unk", "(Array "+fx.mode.lenSort()+" "+ec.sort+")")))
+		ua := fx.decls.fresh("unk", "(Array "+fx.mode.lenSort()+" "+ec.sort+")")
+		fx.assumeArrayTyping(st, ua, et, ec)
+		fx.heapSet(st, k, sx("store", fx.heapGet(st.heap, k), r, ua))
 	}
 	return Val{T: t, C: []string{r, fx.lenNum(0), n, n}}
 }
